@@ -33,7 +33,7 @@ def verus_cmd(path, rlimit, seed=None, extra=()):
            '--multiple-errors', '40', '--num-threads', '16', '--triggers-mode', 'silent',
            '--rlimit', str(rlimit)]
     if seed is not None and seed != 0:
-        cmd += ['-V', 'smt-option=smt.random_seed=%d' % seed, '-V', 'smt-option=sat.random_seed=%d' % seed]
+        cmd += ['--smt-option', 'smt.random_seed=%d' % seed, '--smt-option', 'sat.random_seed=%d' % seed]
     return cmd + list(extra)
 
 
